@@ -13,7 +13,7 @@ FUNCTIONS = ["cross-section of the scenarios of C03 (support kernels), C05 (AABB
 STUBS = ["as in the respective harnesses"]
 OUTSIDE = ["the numeric clause (agreement to 1e-9 / solver accuracy) for all inputs: observed only at one witness per path, not decided", "code generation, BLAS/LAPACK"]
 BOUNDS = {"quick": "~25 scenarios per source harness, their bounds", "thorough": "~120 per source harness"}
-WALL_BUDGET = {"quick": 360, "thorough": 900}
+WALL_BUDGET = {"quick": 300, "thorough": 600}
 EXPECTED_EXCEPTIONS = ()
 SOURCES = ["c03", "c05", "c10", "c13", "c15", "c18", "c02"]
 
